@@ -804,6 +804,9 @@ def run_sched_suite(driver, rng: random.Random, n_scenarios: int, n_schedules: i
                     mon_evals += 1
                     v.setdefault("finding", "D7-reentrant-paths" if d7 else None)
                     vio.append({**v, "scenario": sc, "schedule_seed": sseed})
+            if str(outcome).startswith("failed Hang"):
+                hist["outcome:hang (watchdog)"] += 1
+                break       # the closures before the first step loop: further schedules of this scenario would only wait again
     return {"suite": name, "cases": traces, "distinct": len(distinct), "branches": dict(hist), "disagreements": dis,
             "violations": vio, "exhaustive": False, "traces": traces, "samples": samples,
             "rule": (f"{traces // max(1, n_schedules)} scenarios (2-5 scripted simulators, all three types, group placements, plain/shifted/weak/"
